@@ -1,14 +1,37 @@
 import GenjaxModel.Proofs.Seed
+import GenjaxModel.Proofs.SeedCache
 /-!
 # C06 — a seeded function is a pure, transform-stable function of key and arguments
 
-In the model purity is definitional: `siteKeys p` is a *function* of the program (and the root key
-it is evaluated at) — it mentions no global counter, cache or transformation. The content of C06 is
-therefore carried by the correspondence run (call histories, eager / jit / vmap-over-keys /
-jit∘vmap, all compared bit for bit with these key paths evaluated by jax.random). What the model
-contributes: the key each site receives is determined by program position alone, and distinct
-positions get distinct keys, so "distinct keys give distinct draws" reduces to the PRNG contract.
-(partial: absence of other hidden state in JAX/XLA/TFP cannot be exhibited by the model.)
+Two models carry C06.
+
+**Key threading** (`Model/Seed.lean`): `siteKeys p` is a *function* of the program (and the root key it is evaluated at);
+the key each site receives is determined by program position alone and distinct positions get distinct keys
+(`C06_keys_below_root_partial`, `C06_position_determines_key_partial`).  In that model purity is definitional.
+
+**Hidden state** (`Model/SeedCache.lean`, theorems `C06_cache_*` below): besides the global key counter of the unseeded path
+(never read by `Seed`) the only state of `pjax.py` that outlives a seeded call are the STAGING CACHES — `cached_stage_dynamic`
+(`@lu.cache`: staged jaxpr per function object, keyed on the flattening — pytree structure, keyword names, static data — and
+the avals with their weak-type bits) and `FlatSamplerCache` (one slot per `sample_binder` sampler, keyed on
+`(len(args), tuple(kwargs.keys()))`; the flat sampler fetched while `f` is traced is baked into the cached jaxpr of `f`).
+Modelled: cache keys, lookup / stage / insert / eviction, the nesting of the two caches, histories interleaving seeded calls
+(eager or traced by jit / vmap) with unseeded sampler calls, and how a user-level call is presented to `stage` under each
+transformation.  Proved: a cache whose key refines what staging depends on cannot change any result of any history
+(`C06_cache_transparent`, `C06_cache_single_transparent`); the `stage` key of the code does refine it
+(`C06_cache_key_refines_relevant_code`); eager, jit, vmap-over-keys and jit∘vmap present the same call when weak types are
+preserved (`C06_cache_jit_vmap_same_call`, `C06_cache_transparent_modes`).  The flat-sampler signature of the code does NOT
+refine it (shapes, dtypes, weak types, pytree structure are missing): `C06_cache_transparent_code_partial` states the region
+where the code is transparent, `C06_cache_asis_flat_avals_cex` is the closed counterexample (open finding
+`flat-sampler-cache-avals`, reproduced on the implementation by `harness/props/c06.py cache_histories`), and
+`C06_cache_transparent_spec` is the full statement for the repaired signature.  `C06_cache_kwnames_cex`,
+`C06_cache_weaktype_cex`, `C06_cache_strong_scalar_cex` are the Lean witnesses of the seeded changes C06_2 / C06_3.
+
+Modelling assumptions (stated as hypotheses, not proved): staging a function depends on a call only through
+`relevant` (function object incl. its closure, pytree structure, avals incl. weak types, keyword names, static data) — JAX's
+tracing contract for pure functions; tracers created by `jit` keep the weak type of Python scalars.
+What remains runtime only (correspondence run): that the real caches have the modelled keys (observed through call histories
+that differ only in keyword names / weak types / shapes / static structure, run in several orders), XLA's compilation cache,
+TFP internals, and the PRNG ("distinct keys give distinct draws" rests on threefry).
 -/
 namespace Genjax.Seed
 
@@ -31,3 +54,129 @@ theorem C06_position_determines_key_partial (p : Prog) :
     ((siteKeys p).map fun e => e.2.2).Nodup := siteKeys_nodup p
 
 end Genjax.Seed
+
+namespace Genjax.SeedCache
+open Cex
+
+/-- **one cache** (`cached_stage_dynamic` on its own, or one `FlatSamplerCache`): if equal keys imply equal relevant
+    projections and staging depends on a call only through its relevant projection, then for every history of calls,
+    whatever the capacity of the cache, every call returns what it returns without any cache. -/
+theorem C06_cache_single_transparent {Prog Res : Type} (cfg : Cfg) (stageOf : Call → Prog) (exec : Prog → Call → Res)
+    (hkey : KeyRefines cfg) (hdep : DependsOnRelevant stageOf) (h : List Call) :
+    runHistory cfg stageOf exec [] h = runUncached stageOf exec h :=
+  cache_transparent exec hkey hdep h
+
+/-- **the two nested caches of `seed`**: for every world (bodies, flat staging, outer staging, execution — all abstract)
+    whose stagings depend on calls only through `relevant`, and every pair of cache configurations whose keys refine
+    `relevant`, every seeded call of every history (seeded calls interleaved with unseeded sampler calls, any order, any
+    repetition) returns what it returns as the first call of a fresh process. -/
+theorem C06_cache_transparent {FProg OProg Res : Type} (w : World FProg OProg Res) (cfgO cfgF : Cfg)
+    (hkO : KeyRefines cfgO) (hkF : KeyRefines cfgF)
+    (hdF : DependsOnRelevant w.stageFlat) (hdO : DependsOnRelevant (fullStage w)) (h : List Event) :
+    run w cfgO cfgF State.empty h = runFresh w h :=
+  transparent hkO hkF hdF hdO h
+
+/-- the key of `cached_stage_dynamic` as it is in the code (function object, pytree structure, shapes and dtypes, WEAK-TYPE
+    bits, KEYWORD NAMES, static data) refines the relevant projection; so does the repaired flat-sampler signature -/
+theorem C06_cache_key_refines_relevant_code : KeyRefines Cfg.code ∧ KeyRefines Cfg.flatSpec :=
+  ⟨key_refines_relevant_code, key_refines_relevant_flatSpec⟩
+
+/-- full statement for the repaired flat-sampler signature: the caches are transparent on ALL histories -/
+theorem C06_cache_transparent_spec {FProg OProg Res : Type} (w : World FProg OProg Res)
+    (hdF : DependsOnRelevant w.stageFlat) (hdO : DependsOnRelevant (fullStage w)) (h : List Event) :
+    run w Cfg.code Cfg.flatSpec State.empty h = runFresh w h :=
+  transparent key_refines_relevant_code key_refines_relevant_flatSpec hdF hdO h
+
+/-- the code as it is (`Cfg.code`, `Cfg.flatAsis`).  Full statement — `∀ h, run w Cfg.code Cfg.flatAsis State.empty h =
+    runFresh w h` — is FALSE (`C06_cache_asis_flat_avals_cex`).  Proved: transparency on every history in which, per sampler,
+    the call signature (number of positional arguments, keyword names) determines pytree structure, avals and static data of
+    the site (`SigDetermines` over the sites `PF` that occur) — in particular every sampler that is always called with the
+    same argument types, and all built-in distributions (`wrap_sampler` creates a new binder, hence a new slot, per call).
+    Missing for the full statement: shapes / dtypes / weak types / tree structure in `FlatSamplerCache`'s signature. -/
+theorem C06_cache_transparent_code_partial {FProg OProg Res : Type} (w : World FProg OProg Res) (PF : Call → Prop)
+    (hsig : SigDetermines PF)
+    (hdF : DependsOnRelevant w.stageFlat) (hdO : DependsOnRelevant (fullStage w)) (h : List Event)
+    (hin : ∀ e ∈ h, EventIn (fun _ => True) PF w e) :
+    run w Cfg.code Cfg.flatAsis State.empty h = runFresh w h :=
+  transparent_on (PO := fun _ => True) (key_refines_relevant_code.on _) (flatAsis_refines_on hsig) hdF hdO h
+    State.empty StateOk.empty hin
+
+/-- closed counterexample for the code's flat-sampler signature (free interpretation): a long-lived sampler used at a
+    scalar and then at a vector, or at a Python int and then at an int32 array — the second site runs the sampler staged for
+    the first; both histories are transparent under `Cfg.flatSpec` -/
+theorem C06_cache_asis_flat_avals_cex :
+    (run (World.free bodyShape) Cfg.code Cfg.flatAsis State.empty histShape)[1]? ≠ (runFresh (World.free bodyShape) histShape)[1]?
+    ∧ (run (World.free bodyWS) Cfg.code Cfg.flatAsis State.empty histWS)[1]? ≠ (runFresh (World.free bodyWS) histWS)[1]?
+    ∧ run (World.free bodyShape) Cfg.code Cfg.flatSpec State.empty histShape = runFresh (World.free bodyShape) histShape
+    ∧ run (World.free bodyWS) Cfg.code Cfg.flatSpec State.empty histWS = runFresh (World.free bodyWS) histWS :=
+  flatAsis_avals_cex
+
+/-- Lean witness of seeded change C06_2 (signature `(len(args), len(kwargs))`): the second call of
+    `seed(λv. binder(lo=v))(k, 1.0); seed(λv. binder(hi=v))(k, 1.0)` differs from its fresh result; with the keyword names in
+    the signature (the code) the history is transparent -/
+theorem C06_cache_kwnames_cex :
+    (run (World.free bodyKw) Cfg.code Cfg.flatNoKwNames State.empty histKw)[1]? ≠ (runFresh (World.free bodyKw) histKw)[1]?
+    ∧ run (World.free bodyKw) Cfg.code Cfg.flatAsis State.empty histKw = runFresh (World.free bodyKw) histKw :=
+  kwnames_cex
+
+/-- a `stage` key without the weak-type bit: `seed(f)(k, 100); seed(f)(k, int32(100))` — the second call is served the jaxpr
+    traced for the weakly typed argument; transparent with the code's key -/
+theorem C06_cache_weaktype_cex :
+    (run (World.free fun _ => []) Cfg.codeNoWeak Cfg.flatAsis State.empty histWeak)[1]?
+      ≠ (runFresh (World.free fun _ => []) histWeak)[1]?
+    ∧ run (World.free fun _ => []) Cfg.code Cfg.flatAsis State.empty histWeak = runFresh (World.free fun _ => []) histWeak :=
+  weaktype_cex
+
+/-- **eager, jit, vmap over keys and jit∘vmap present the same call.**  Assumptions, explicit: genjax's `get_shaped_aval`
+    gives Python scalars a weak aval (`j.stageScalarWeak`; true in the code, false after seeded change C06_3) and JAX's tracers
+    keep the weak type (`j.tracerKeepsWeak`; the modelling assumption about JAX). -/
+theorem C06_cache_jit_vmap_same_call (j : JaxCfg) (h1 : j.stageScalarWeak = true) (h2 : j.tracerKeepsWeak = true)
+    (m m' : Mode) (u : UCall) : present j m u = present j m' u :=
+  present_mode_irrelevant h1 h2 m m' u
+
+/-- consequence: in every history of user-level events, each made under any of the four transformations, every seeded call
+    returns what the same call returns EAGERLY as the first call of a fresh process -/
+theorem C06_cache_transparent_modes {FProg OProg Res : Type} (w : World FProg OProg Res) (cfgO cfgF : Cfg)
+    (hkO : KeyRefines cfgO) (hkF : KeyRefines cfgF)
+    (hdF : DependsOnRelevant w.stageFlat) (hdO : DependsOnRelevant (fullStage w))
+    (j : JaxCfg) (h1 : j.stageScalarWeak = true) (h2 : j.tracerKeepsWeak = true) (h : List UEvent) :
+    run w cfgO cfgF State.empty (h.map (UEvent.present j)) = h.map (UEvent.freshEager w j) :=
+  transparent_modes hkO hkF hdF hdO h1 h2 h
+
+/-- Lean witness of seeded change C06_3 (`get_shaped_aval` drops the weak type of Python scalars): `seed(f)(k, 100)` reaches
+    `stage` as different calls eagerly and under jit (and under vmap vs jit∘vmap), and runs different programs -/
+theorem C06_cache_strong_scalar_cex :
+    present JaxCfg.c06_3 .eager uPyInt ≠ present JaxCfg.c06_3 .jit uPyInt
+    ∧ fresh (World.free fun _ => []) (present JaxCfg.c06_3 .eager uPyInt)
+        ≠ fresh (World.free fun _ => []) (present JaxCfg.c06_3 .jit uPyInt)
+    ∧ present JaxCfg.c06_3 .vmapKeys uPyInt ≠ present JaxCfg.c06_3 .jitVmap uPyInt :=
+  strong_scalar_cex
+
+/-! non-vacuity: the hypotheses hold on concrete, non-trivial instances -/
+
+/-- the free world over a body that reads the function id satisfies both dependency hypotheses -/
+example : DependsOnRelevant (World.free bodyKw).stageFlat ∧ DependsOnRelevant (fullStage (World.free bodyKw)) :=
+  free_depends (fun c c' h => by
+    have : c.fn = c'.fn := by simpa [relevant] using congrArg Rel.fn h
+    simp [bodyKw, this])
+example : KeyRefines Cfg.code := key_refines_relevant_code
+example : Cfg.code.full = true ∧ Cfg.flatSpec.full = true ∧ Cfg.flatAsis.full = false := by decide
+/-- the keyword-name history of the check lies in the region of `C06_cache_transparent_code_partial` -/
+example : SigDetermines (fun c => c = siteLo ∨ c = siteHi) := by
+  intro c c' hc hc' _ _ _
+  rcases hc with rfl | rfl <;> rcases hc' with rfl | rfl <;> exact ⟨rfl, rfl, rfl⟩
+example : ∀ e ∈ histKw, EventIn (fun _ => True) (fun c => c = siteLo ∨ c = siteHi) (World.free bodyKw) e := by
+  intro e he
+  simp only [histKw, List.mem_cons, List.not_mem_nil, or_false] at he
+  rcases he with rfl | rfl <;> simp [EventIn, World.free, bodyKw, callLo, callHi]
+/-- … and the scalar/vector history does not (the signature does not determine the avals) -/
+example : ¬ SigDetermines (fun c => c = siteScalar ∨ c = siteVector) := by
+  intro h
+  have := (h siteScalar siteVector (Or.inl rfl) (Or.inr rfl) rfl rfl rfl).2.1
+  exact absurd this (by decide)
+example : JaxCfg.code.stageScalarWeak = true ∧ JaxCfg.code.tracerKeepsWeak = true := by decide
+/-- the four presentations of `f(100)` under the code's configuration coincide and are weakly typed -/
+example : present JaxCfg.code .jit uPyInt = present JaxCfg.code .eager uPyInt
+    ∧ (present JaxCfg.code .eager uPyInt).avals = [⟨[], "int32", true⟩] := by decide
+
+end Genjax.SeedCache
